@@ -366,10 +366,21 @@ def rule_scan_stops_with_cause(ctx):
             if not front or front[-1] != 1:
                 continue
             lits = literals_of(p.conds)
-            facts = [f for f in (classify_literal(t, v) for t, v in lits) if f]
+            facts = []
+            for t, v in lits:
+                f = classify_literal(t, v)
+                if f:
+                    # a timestamp read straight from the scanned deque's front node (the accessor was stepped into: `node.element.timestamp`)
+                    # is that queue's timestamp
+                    if not f['ts'] and any(isinstance(x, tuple) and x and x[0] == 'call' and x[1] in R.front for x in subterms(t)):
+                        f = dict(f); f['ts'] = {kind}
+                    facts.append(f)
             nones = tag_none_facts(lits)
             cfg = 'time_to_live' if kind == 'wo' else 'time_to_idle'
-            no_ts = any(ts_kind(x) == {kind} and not has_call(x, ('checked_add',)) for x in nones)
+            def _front_ts(x):       # the front node's own `timestamp` field (accessor stepped into)
+                return any(isinstance(y, tuple) and y and y[0] == 'fld' and y[2] == 'timestamp' for y in subterms(x)) and \
+                    any(isinstance(y, tuple) and y and y[0] == 'call' and y[1] in R.front for y in subterms(x))
+            no_ts = any((ts_kind(x) == {kind} or _front_ts(x)) and not has_call(x, ('checked_add',)) for x in nones)
             bsc = prog.bodies[nid]
 
             def _dur_param(x):      # the duration handed in as a parameter (`time_to_idle: &Option<Duration>`)
